@@ -62,6 +62,7 @@ def run(chk, repo, tier):
     run_f5_f7(chk, repo)
     run_f8(chk, repo)
     run_f9(chk, repo)
+    run_f10_f11(chk, repo)
 
 
 # bare-statement calls whose dropped result was read and confirmed harmless
@@ -457,3 +458,67 @@ def run_f9(chk, repo):
                                           'still contains the IOV etas and differs from the individual prediction at eta = 0')
     if n < 2:
         raise AnalysisError(f'F9: only {n} zero-substitutions of random effects found')
+
+
+def _dom_of(v, doms):
+    if isinstance(v, ast.Call):
+        fn = dotted(v.func) or ''
+        if fn.startswith('Expr.') or fn == 'Expr':
+            return 'pharmpy Expr'
+        if isinstance(v.func, ast.Attribute) and v.func.attr == '_sympy_':
+            return 'sympy'
+        if fn.startswith('sympy.') and fn.split('.')[-1] in ('Symbol', 'sympify', 'Function', 'Integer', 'Float', 'exp', 'log',
+                                                             'Piecewise', 'Add', 'Mul'):
+            return 'sympy'
+    if isinstance(v, ast.Name):
+        return doms.get(v.id)
+    return None
+
+
+def run_f10_f11(chk, repo):
+    F10 = chk.rule('F10', 'functions that act on thetas restrict their parameter loop to thetas', floor=1)
+    F11 = chk.rule('F11', 'membership tests compare symbols of one library (pharmpy Expr versus sympy) - a mixed test is '
+                          'always False', floor=50)
+    pm = repo.module('pharmpy.modeling.parameters')
+    n10 = 0
+    for name, f in pm.functions.items():
+        if 'thetas' not in name or name.startswith('get_'):
+            continue
+        loops = [L for L in walk_no_nested(f.node) if isinstance(L, ast.For) and unparse(L.iter) == 'model.parameters']
+        for L in loops:
+            n10 += 1
+            txt = unparse(f.node)
+            ok = 'get_thetas' in txt or 'theta' in ' '.join(unparse(t.test) for t in ast.walk(L) if isinstance(t, ast.If))
+            chk.instance(F10, f'{name}: loop over model.parameters restricted to thetas: {ok}')
+            if not ok:
+                chk.violation(F10, pm.rel, name, f'for {unparse(L.target)} in model.parameters',
+                              'omegas and sigmas are treated like thetas', line=L.lineno,
+                              witness='a model with a FIXed omega: replace_fixed_thetas removes the omega from the parameters and '
+                                      'update_source raises KeyError')
+    if n10 == 0:
+        raise AnalysisError('F10: no theta function with a parameter loop found')
+    n11 = 0
+    for f in repo.all_funcs():
+        if not f.module.name.startswith(('pharmpy.modeling', 'pharmpy.model.', 'pharmpy.tools')):
+            continue
+        doms = {}
+        for a in walk_no_nested(f.node):
+            if isinstance(a, ast.Assign) and len(a.targets) == 1 and isinstance(a.targets[0], ast.Name):
+                d = _dom_of(a.value, doms)
+                if d:
+                    cur = doms.get(a.targets[0].id)
+                    doms[a.targets[0].id] = d if cur in (None, d) else 'mixed'
+        for c in walk_no_nested(f.node):
+            if isinstance(c, ast.Compare) and len(c.ops) == 1 and isinstance(c.ops[0], (ast.In, ast.NotIn)):
+                r = c.comparators[0]
+                if not (isinstance(r, ast.Attribute) and r.attr in ('free_symbols', 'atoms', 'args')):
+                    continue
+                n11 += 1
+                l, rd = _dom_of(c.left, doms), _dom_of(r.value, doms)
+                if l and rd and l != rd and 'mixed' not in (l, rd):
+                    chk.violation(F11, f.module.rel, f.qualname, unparse(c),
+                                  f'`{unparse(c.left)}` is a {l} symbol, `{unparse(r.value)}` a {rd} expression: the test can '
+                                  f'never be true', line=c.lineno,
+                                  witness='mu_reference_model applied twice: the "already mu-referenced" test is never true, the '
+                                          'second call defines mu_1 = 0 and CL = exp(ETA_1 + 2*mu_1)')
+    chk.instance(F11, 'membership tests against free_symbols/atoms/args examined', n=n11)
